@@ -547,6 +547,12 @@ fn c17(rng: &mut Rng, _tier: &str, idx: usize) -> Case {
 fn c17_runs(rng: &mut Rng, mut c: Case, tids: Vec<u32>) -> Case {
     let m = tids.len();
     let methods = ["union", "single", "complete", "average"];
+    if m >= 2 {
+        // two sets at infinite distance: one merge all the same
+        let method = *rng.pick(&methods);
+        c.op(format!("link {} 0 {},{} {}", method, tids[0], tids[1], 0x7f80_0000u32));
+        c.stat("two_sets_at_infinite_distance", 1);
+    }
     let mut nontrivial = false;
     let runs = rng.range(3, 6);
     for r in 0..runs {
